@@ -328,6 +328,13 @@ Definition AppendBitmaskString (R : registry) (tag value : Z) (sep : str) : str 
     let mapper := match zfind tag (bitmaskNames R) with Some l => l | None => [] end in
     fst (fold_left (mask_step mapper sep value) (seq 0 32) ([], false)).
 
+(** bitmaskNames[tag][i]: the name of flag i ("" when there is none) *)
+Definition mask_flag_name (R : registry) (tag : Z) (i : nat) : str :=
+  match zfind tag (bitmaskNames R) with
+  | Some l => nth i l []
+  | None => []
+  end.
+
 (** BitmaskByStr: [None] = error *)
 Definition BitmaskByStr (R : registry) (tag : Z) (name : str) : option Z :=
   match zfind tag (bitmaskByName R) with
@@ -435,7 +442,8 @@ Definition registry_ok (R : registry) : bool :=
   scoped_bij_check (enumNames R) (enumsByName R) &&
   forallb (fun p => names_check (snd p) && in_u32_all (snd p)) (enumNames R) &&
   masks_check (bitmaskNames R) (bitmaskByName R) &&
-  bij_check (typesName R) (nameTypes R) && names_check (typesName R).
+  bij_check (typesName R) (nameTypes R) && names_check (typesName R) &&
+  forallb (fun p => (0 <? fst p) && (fst p <? 16777216)) (tagNames R).
 
 (** every name of the registry (for the hygiene statement) *)
 Definition all_names (R : registry) : list str :=
